@@ -97,6 +97,13 @@ def u1_layouts(src, assignor, max_members, ntopics, max_parts):
         res2 = A.run_assign("sticky", parts, subs2, previous={m: res[m] for m in res if m in subs2}, generation=1)
         A.check_validity(src, "sticky", parts, subs2, res2, tag="second round: ")
         A.check_balance(src, "sticky", parts, subs2, res2, tag="second round: ")
+        if kind == "same" and len(subs) >= 2:
+            # a member that missed a generation re-joins with stale (older-generation) user data
+            sr = A.stale_rejoin(src, parts, subs, res)
+            if sr is not None:
+                absent, s2, r2, r3 = sr
+                A.check_validity(src, "sticky", parts, subs, r3, tag="stale re-join: ")
+                A.check_balance(src, "sticky", parts, subs, r3, tag="stale re-join: ")
 
 
 def harnesses(tier):
